@@ -731,6 +731,12 @@ def fam_ring(rng, sid0, n):
         for _ in range(30):
             sc.hs(0, "r", "e", ret=rng.choice([R_DATA_OK, R_DATA_OK, R_OK, R_ERROR, R_DATA_NEXT]), data=rng.choice([None, b"uu"]))
             sc.hs(1, "t", "e", ret=rng.choice([R_DATA_OK, R_OK, R_NEXT]))
+        # the run handler of +C loops and, from inside, asks the observers and triggers: the queue as seen from a callback in the very
+        # service round in which the event machine takes the next event
+        for _ in range(6):
+            for _ in range(rng.randint(1, 6)):
+                sc.hs(3, "x", "c", ret=R_NEXT, act=rng.choice(["qproc:1;q:full", "qproc:1;q:full", "qproc:1;trig:%d:r" % rng.choice([0, 2]), "qproc:1;q:full;trig:0:t", "qproc:1;q:full;qbuf:0:n", "q:full"]))
+            sc.hs(3, "x", "c", ret=R_OK)
         sc.wrs(gen.rand_wsched(rng, 600))
         for _ in range(rng.choice([40, 80])):
             r = rng.random()
